@@ -36,7 +36,7 @@ add("C09", "pure", "exploration",
 
 add("C15", "pure", "exploration",
     "property-based testing (rapid) with a print/parse round trip and a reference parser for rendered text; exhaustive enumeration of all small trees",
-    "Reference trees are generated from the grammar, printed by the harness and parsed back by ParseTypeRef (tree equality and String round trip); ParseRef, Ref and "
+    "Reference trees (depth <= 4, a fifth wrapped into chains of up to 12 further bracket levels) are generated from the grammar, printed by the harness and parsed back by ParseTypeRef (tree equality and String round trip); ParseRef, Ref and "
     "PkgImportPathAndExpose must split at the harness-known point; rendering through snippet.ID/PkgExpose is parsed by a harness parser and every qualifier is resolved "
     "through the tracker. Every tree up to 5 (quick) / 6 (thorough) nodes over 6 labels is enumerated.",
     "Trusts the harness tree printer and rendered-text parser; paths without /vendor/.",
@@ -69,7 +69,7 @@ add("C06", "pipe", "exploration",
 
 add("C07", "pipe", "exploration",
     "property-based testing (rapid): byte snapshots of the whole module tree before/after each run of generated run histories",
-    "Modules with user files, look-alike names, stale and previous outputs, README and old gengo.sum are run 1-3 times with varying generator sets/behaviours, "
+    "Modules with user files, look-alike names, stale and previous outputs, README and old gengo.sum (some with a nested module or a second go.work workspace module) are run 1-3 times with varying generator sets/behaviours, "
     "entrypoint subsets and All/Force; every changed path must be <base>.* directly inside a processed package or gengo.sum (only with All); per generator the "
     "file exists iff it rendered, ErrIgnore-and-nothing keeps the previous bytes, stale <base>.*.go files are gone.",
     "Cache skips in All-without-Force runs are observed (no generator call), not modelled here (C08 models them).",
@@ -87,7 +87,7 @@ add("C01", "pipe", "exploration",
 add("C04", "pipe", "exploration",
     "property-based testing (rapid): repeated runs, fresh-process runs and permuted entrypoints from one initial tree must agree byte for byte; re-run on the result must be a fixed point",
     "From the same initial tree 3 in-process runs, a run in a fresh child process and runs with permuted entrypoint lists must produce byte-identical generated files, "
-    "gengo.sum and GenerateType call sequences (also with the generators listed in reverse order, and the second run made by a fresh process); a further run on the result must change no generated file and, with All, a third run nothing at all. "
+    "gengo.sum and GenerateType call sequences (also with the generators listed in reverse order, and the second run made by a fresh process); a further run on the result must change no generated file and, with All, a third run nothing at all; a source edited in place with its modification time kept must give what a fresh checkout of the same contents gives. "
     "Generators echo everything order-sensitive gengo hands them (type order, doc lines, tags, map literal, imports).",
     "Map-iteration orders are sampled by repetition (a 2-way order dependence escapes one case with p<=2^-4, and there are hundreds of cases).",
     "DESIGN.md section 3, C04")
@@ -101,10 +101,10 @@ add("C05", "pipe", "exploration",
 
 add("C08", "pipe", "exploration",
     "model-based property testing (rapid): generated histories of file edits, gengo.sum corruptions and runs against a reference cache model that hashes directories itself",
-    "Histories of edits / sum-file corruptions / runs (All, Force, failing, subset, non-All) are replayed against the real tree; before each run the model hashes "
+    "Histories of edits (incl. bytes past 64 KiB of big files, in-place edits keeping size and mtime) / sum-file corruptions / runs (All, Force, failing, subset, non-All) are replayed against the real tree; before each run the model hashes "
     "every loaded package directory with x/mod dirhash (cross-checked by an own h1 implementation) and parses gengo.sum with its own reader; the set of packages the "
     "recording generator is invoked for, the bytes of gengo.sum and the read-back mapping must equal the model after every step, and three unchanged runs must converge.",
-    "Trusts x/mod/sumdb/dirhash (cross-checked) and the harness sum-file reader; no clock or filesystem semantics beyond create/edit/delete/symlink.",
+    "Trusts x/mod/sumdb/dirhash (cross-checked) and the harness sum-file reader; no filesystem semantics beyond create/edit/delete/symlink/chtimes.",
     "DESIGN.md section 3, C08")
 
 add("C02", "pipe", "fault_enumeration",
